@@ -98,6 +98,9 @@ func init() {
 				in.unsupported("vpChoose with symbolic bound")
 			}
 			n := int(nt.Val)
+			if v, ok := in.run.ReplayChoose(); ok {
+				return in.ctx.Const(uint64(v), 64)
+			}
 			v := in.run.Choose(n)
 			in.run.noteChoose(n, v)
 			in.run.noteBound(site, fmt.Sprintf("choose<%d", n))
@@ -181,6 +184,15 @@ func init() {
 				ns[i] = names.Arr[i].(string)
 			}
 			in.run.AssertEach(args[0].(string), cs, ns, site)
+			return nil
+		},
+		"vpRewindInputs": func(in *Interp, caller *frame, site ssa.Instruction, fn *ssa.Function, args []Value) Value {
+			in.run.RewindInputs()
+			in.nblob = 0
+			return nil
+		},
+		"vpSetMapOrder": func(in *Interp, caller *frame, site ssa.Instruction, fn *ssa.Function, args []Value) Value {
+			in.run.orderPolicy = int(args[0].(*sym.Term).Val)
 			return nil
 		},
 		"vpReachable": func(in *Interp, caller *frame, site ssa.Instruction, fn *ssa.Function, args []Value) Value {
